@@ -13,7 +13,7 @@
 import ast as _ast
 
 from .common import *   # noqa: F401,F403
-from . import frames, C11, C17, C07
+from . import frames, C11, C17, C07, C20
 from pyvc.values import real_val
 
 XYZ_READERS = {
@@ -115,10 +115,69 @@ def ground_callsites(pr, repo):
                   backend='frame-checker'))
 
 
+def task_group_centres(pr, repo):
+    """GC: every setup_atoms variant leaves the group centre set by Group.set_center (VE: equivariant) from atoms of the structure -
+    never at a frame-fixed default such as the origin."""
+    from pyvc.core import Builtin
+    from pyvc.values import PyRaise
+    ex = Executor(repo)
+    mod = repo.module('propka.group')
+    classes = [ci for ci in mod.classes.values() if 'setup_atoms' in ci.methods]
+    A = repo.cls('propka.atom.Atom')
+    for ci in classes:
+        fi = ci.methods['setup_atoms']
+        pr.under_contract(fi)
+
+        def thunk(ex, ctx, ci=ci, fi=fi):
+            main = record('main', A, element='O', name='OX')
+            pool = [main]
+            centre_calls = []
+
+            def fresh(el):
+                a = record('n%d' % len(pool), A, element=el, name=el + 'X')
+                pool.append(a)
+                return a
+
+            def some(el, owner, lo=0, hi=2):
+                n = I('n_%s_%d' % (el, len(pool)))
+                ctx.assume(And(n >= lo, n <= hi))
+                k = lo
+                while k < hi and ctx.branch(n > k):
+                    k += 1
+                out = [fresh(el) for _ in range(k)]
+                if owner is not main and el == 'O':
+                    out.append(main)        # bonds are symmetric: the carboxyl carbon found from the group's oxygen is bonded to it
+                return out
+            ex.contracts['propka.atom.Atom.get_bonded_elements'] = lambda ex_, c_, f_, a, k, so: some(a[0] if a else k['element'], so)
+            ex.contracts['propka.atom.Atom.get_bonded_heavy_atoms'] = lambda ex_, c_, f_, a, k, so: some('C', so)
+            ex.contracts['propka.ligand.is_ring_member'] = lambda ex_, c_, f_, a, k, so: (
+                [main] + [fresh('C'), fresh('N'), fresh('C'), fresh('N')] if ctx.branch(B('ring')) else [])
+            ex.contracts['propka.protonate.Protonate.protonate_atom'] = lambda ex_, c_, f_, a, k, so: None
+
+            def set_center(ex_, c_, f_, a, k, so):
+                atoms = a[0] if a else k['atoms']
+                if len(atoms) == 0:
+                    raise PyRaise('ValueError', 'At least one atom must be specified')
+                centre_calls.append(list(atoms))
+            ex.contracts['propka.group.Group.set_center'] = set_center
+            ex.contracts['propka.group.Group.set_interaction_atoms'] = lambda ex_, c_, f_, a, k, so: None
+            g = record('g', ci, atom=main, type='XX', x=0.0, y=0.0, z=0.0, label='g')
+            try:
+                ex.call_function(fi, [], self_obj=g)
+            except PyRaise as e:
+                ctx.oblige('GC[%s.setup_atoms]: the only exception is the explicit rejection of an empty atom list' % ci.name,
+                           e.exc_name == 'ValueError' and 'At least one atom' in str(e.msg))
+                return
+            ok = len(centre_calls) >= 1 and all(isinstance(x, Obj) and x in pool for x in centre_calls[-1])
+            ctx.oblige('GC[%s.setup_atoms]: on every normal return the centre was set by set_center from a non-empty list of atoms of '
+                       'the structure (never left at a frame-fixed default)' % ci.name, ok)
+        pr.explore(ex, thunk, 'centre %s' % ci.name)
+
+
 def run(pr, repo):
     tasks = [(task_invariance, ()), (C11.task_cell_lemma, ()), (C11.task_offsets, ()), (C11.task_check_distance, ()),
              (C11.task_boxes_pair, ('S', 'S', False, (0,))), (C17.task_equivariance, ()), (C17.task_add_proton, ()),
-             (C17.task_orthogonal, ())]
+             (C17.task_orthogonal, ()), (task_group_centres, ()), (C20.task_rotation, ())]
     pr.parallel(tasks)
     C07.task_columns(pr, repo)
     ground_callsites(pr, repo)
